@@ -25,6 +25,8 @@ type Stepper struct {
 	AfterDeliver func(d *simnet.Datagram, res simnet.DeliverResult, to *simnet.Sock)
 	// CanDrop limits which datagrams may be dropped/duplicated (nil = all).
 	CanFault func(d *simnet.Datagram) bool
+	// CanDrop limits which datagrams may be dropped (nil = all); duplicates and reordering stay possible.
+	CanDrop func(d *simnet.Datagram) bool
 	// Hold keeps a datagram in flight (not eligible for any action) while it returns true.
 	Hold func(d *simnet.Datagram) bool
 }
@@ -127,7 +129,7 @@ func (s *Stepper) StepFaulty() {
 		s.Advance(s.Deltas[i])
 	case 3:
 		d := pool[s.C.T.Choose(len(pool), "which")]
-		if s.CanFault != nil && !s.CanFault(d) {
+		if (s.CanFault != nil && !s.CanFault(d)) || (s.CanDrop != nil && !s.CanDrop(d)) {
 			s.Deliver(d)
 			return
 		}
